@@ -3,11 +3,13 @@
 package vf
 
 import (
+	"bytes"
 	"crypto/sha256"
 	"encoding/hex"
 	"encoding/json"
 	"fmt"
 	"os"
+	"os/exec"
 	"path/filepath"
 	"sort"
 	"strconv"
@@ -60,8 +62,12 @@ type Run struct {
 	outcomes  map[string]int
 	engineErr []string
 	byTag     map[string]int
+	byTagEx   map[string]Violation
 	Assume    []string
 	replayIn  string
+	shardOut  string         // child mode: write the raw result here instead of evidence
+	allViol   map[string]*Violation // child mode: every (clause,tags) class, smallest example
+	allCount  map[string]int
 }
 
 // Start reads VERIF_TIER / VERIF_SEED / VERIF_REPLAY and the known findings of the property.
@@ -75,6 +81,7 @@ func Start(id, level string) *Run {
 		r.Seed, _ = strconv.ParseInt(s, 10, 64)
 	}
 	r.replayIn = os.Getenv("VERIF_REPLAY")
+	r.shardOut = os.Getenv("VERIF_SHARD_OUT")
 	bz, err := os.ReadFile(filepath.Join(Root(), "known_findings.json"))
 	if err == nil {
 		var all []Finding
@@ -164,6 +171,18 @@ func has(tags []string, t string) bool {
 func (r *Run) Report(v Violation) {
 	r.mu.Lock()
 	defer r.mu.Unlock()
+	if r.shardOut != "" {
+		if r.allViol == nil {
+			r.allViol, r.allCount = map[string]*Violation{}, map[string]int{}
+		}
+		k := v.Clause + " " + fmt.Sprint(v.Tags)
+		r.allCount[k]++
+		if old := r.allViol[k]; old == nil || v.Cost < old.Cost {
+			vv := v
+			r.allViol[k] = &vv
+		}
+		return
+	}
 	for i, f := range r.known {
 		if f.Clause == v.Clause && has(v.Tags, f.Trigger) {
 			r.knownHits[i]++
@@ -178,7 +197,14 @@ func (r *Run) Report(v Violation) {
 	if r.byTag == nil {
 		r.byTag = map[string]int{}
 	}
-	r.byTag[v.Clause+" "+fmt.Sprint(v.Tags)]++
+	k := v.Clause + " " + fmt.Sprint(v.Tags)
+	r.byTag[k]++
+	if r.byTagEx == nil {
+		r.byTagEx = map[string]Violation{}
+	}
+	if old, ok := r.byTagEx[k]; !ok || v.Cost < old.Cost {
+		r.byTagEx[k] = v
+	}
 	if old := r.viol[v.Clause]; old == nil || v.Cost < old.Cost {
 		vv := v
 		r.viol[v.Clause] = &vv
@@ -221,6 +247,10 @@ func (r *Run) writeReplay(v *Violation) string {
 func (r *Run) Finish(c Coverage) {
 	r.mu.Lock()
 	defer r.mu.Unlock()
+	if r.shardOut != "" {
+		r.writeShard(c)
+		return
+	}
 	wall := time.Since(r.start).Seconds()
 	cov := map[string]any{
 		"evaluations":                   c.Evaluations,
@@ -298,6 +328,13 @@ func (r *Run) Finish(c Coverage) {
 			sort.Strings(ks)
 			for _, k := range ks {
 				fmt.Printf("  unexplained: %s x%d\n", k, r.byTag[k])
+				if os.Getenv("VERIF_VERBOSE") == "2" {
+					m := r.byTagEx[k].Msg
+					if len(m) > 700 {
+						m = m[:700]
+					}
+					fmt.Printf("      e.g. %s\n", m)
+				}
 			}
 		}
 		clauses := make([]string, 0, len(r.viol))
@@ -317,4 +354,148 @@ func (r *Run) Finish(c Coverage) {
 		os.Exit(1)
 	}
 	// exit 0: return normally (the testing package forbids os.Exit(0) inside a test)
+}
+
+// ---------------------------------------------------------------------------------------------------------------
+// Process-level sharding: bubble-heavy checks scale far better over processes than over goroutines.
+
+type shardResult struct {
+	Cov       Coverage
+	Viol      []Violation
+	Counts    []int
+	Samples   []any
+	Outcomes  []string
+	EngineErr []string
+	Assume    []string
+}
+
+func (r *Run) writeShard(c Coverage) {
+	res := shardResult{Cov: c, Samples: r.samples, EngineErr: r.engineErr, Assume: r.Assume}
+	for k, v := range r.allViol {
+		res.Viol = append(res.Viol, *v)
+		res.Counts = append(res.Counts, r.allCount[k])
+	}
+	for k := range r.outcomes {
+		res.Outcomes = append(res.Outcomes, k)
+	}
+	bz, err := json.Marshal(res)
+	if err == nil {
+		err = os.WriteFile(r.shardOut, bz, 0o644)
+	}
+	if err != nil {
+		fmt.Println("ENGINE-ERROR: shard cannot write its result:", err)
+		os.Exit(2)
+	}
+}
+
+// RunShards re-executes this test binary n times (one shard of the exploration each, GOMAXPROCS=1), merges the raw
+// results, classifies them against the known findings and finishes the run. It returns false when the caller is a
+// shard itself (or sharding is off) and has to do the work.
+func (r *Run) RunShards(n int) bool {
+	if r.shardOut != "" || r.replayIn != "" || n <= 1 || os.Getenv("VERIF_NOSHARD") != "" {
+		return false
+	}
+	dir, err := os.MkdirTemp("", "shards")
+	if err != nil {
+		r.EngineError(err.Error())
+		return false
+	}
+	defer os.RemoveAll(dir)
+	type job struct {
+		cmd *exec.Cmd
+		out string
+		buf *bytes.Buffer
+	}
+	var jobs []job
+	for i := 0; i < n; i++ {
+		out := filepath.Join(dir, fmt.Sprintf("shard-%d.json", i))
+		cmd := exec.Command(os.Args[0], "-test.run", "^TestCheck$", "-test.timeout", "0")
+		cmd.Env = append(os.Environ(), fmt.Sprintf("VERIF_SHARD=%d/%d", i, n), "VERIF_SHARD_OUT="+out, "GOMAXPROCS=1", "VERIF_WORKERS=1")
+		buf := &bytes.Buffer{}
+		cmd.Stdout, cmd.Stderr = buf, buf
+		if err := cmd.Start(); err != nil {
+			r.EngineError("cannot start shard: " + err.Error())
+			continue
+		}
+		jobs = append(jobs, job{cmd, out, buf})
+	}
+	var merged Coverage
+	first := true
+	for i, j := range jobs {
+		err := j.cmd.Wait()
+		bz, rerr := os.ReadFile(j.out)
+		if err != nil || rerr != nil {
+			tail := j.buf.String()
+			if len(tail) > 1500 {
+				tail = tail[len(tail)-1500:]
+			}
+			r.EngineError(fmt.Sprintf("shard %d failed (%v, %v): %s", i, err, rerr, tail))
+			continue
+		}
+		var res shardResult
+		if err := json.Unmarshal(bz, &res); err != nil {
+			r.EngineError(fmt.Sprintf("shard %d result does not parse: %v", i, err))
+			continue
+		}
+		for k, v := range res.Viol {
+			for c := 0; c < res.Counts[k]; c++ { // keep the per-class counts
+				r.Report(v)
+				if c >= 0 && res.Counts[k] > 1 {
+					// count the rest without re-classifying the example each time
+					r.bump(v, res.Counts[k]-1)
+					break
+				}
+			}
+		}
+		for _, s := range res.Samples {
+			r.Sample(s)
+		}
+		r.mu.Lock()
+		for _, o := range res.Outcomes {
+			r.outcomes[o]++
+		}
+		r.mu.Unlock()
+		for _, e := range res.EngineErr {
+			r.EngineError(fmt.Sprintf("shard %d: %s", i, e))
+		}
+		if first {
+			merged = res.Cov
+			r.Assume = res.Assume
+			first = false
+		} else {
+			merged.Evaluations += res.Cov.Evaluations
+			merged.Transitions += res.Cov.Transitions
+			merged.States += res.Cov.States
+			merged.Exhaustive = merged.Exhaustive && res.Cov.Exhaustive
+			for _, c := range res.Cov.Caps {
+				merged.Caps = append(merged.Caps, fmt.Sprintf("shard %d: %s", i, c))
+			}
+		}
+	}
+	if len(merged.Caps) > 0 && merged.Caps[0] != "" && !first {
+		// caps of shard 0 keep their text
+	}
+	merged.DistinctNontrivial = int64(r.DistinctOutcomes())
+	if merged.Extra == nil {
+		merged.Extra = map[string]any{}
+	}
+	merged.Extra["process_shards"] = n
+	r.Finish(merged)
+	return true
+}
+
+// bump adds n further occurrences of an already reported violation class.
+func (r *Run) bump(v Violation, n int) {
+	r.mu.Lock()
+	defer r.mu.Unlock()
+	for i, f := range r.known {
+		if f.Clause == v.Clause && has(v.Tags, f.Trigger) {
+			r.knownHits[i] += n
+			return
+		}
+	}
+	r.violCount += n
+	if r.byTag != nil {
+		r.byTag[v.Clause+" "+fmt.Sprint(v.Tags)] += n
+	}
 }
